@@ -289,6 +289,7 @@ def oracle_c43(c):
     chunked = c.get("chunk", 0) > 0
     taint = False
     known = None
+    first_demand = None
     for k in range(len(c["obs"])):
         g = split_groups(c["obs"][k])
         op = c["ops"][k - 1] if k > 0 else None
@@ -304,8 +305,9 @@ def oracle_c43(c):
                 if not taint:
                     known = (KNOWN_C43_CHUNKED, "chunked flow: the registration delivered at step %d set demandUpTo to currentSeq=%d, the consumer controller never requested beyond %d" % (k, P["demand"], max_sent), k)
                 taint = True
-            else:
-                bad.append(("demand:beyond-requested", "demandUpTo %d, highest request ever sent %d" % (P["demand"], max_sent), k))
+            elif first_demand is None:
+                # keep scanning: if a message is actually emitted under this demand, that step is the better witness
+                first_demand = ("demand:beyond-requested", "demandUpTo %d, highest request ever sent %d" % (P["demand"], max_sent), k)
         else:
             taint = False
         for m in g["toCC"]:
@@ -315,7 +317,8 @@ def oracle_c43(c):
                     if chunked and taint and q <= P["demand"]:
                         known = (KNOWN_C43_CHUNKED, "chunked flow: SequencedMessage seq %d sent after a re-registration lifted demandUpTo to currentSeq=%d; the consumer controller never requested beyond %d" % (q, P["demand"], max_sent), k)
                     else:
-                        bad.append(("emit:beyond-requested", "SequencedMessage seq %d sent, highest request so far %d" % (q, max_sent), k))
+                        bad.append(("emit:beyond-requested", "SequencedMessage seq %d sent, highest request so far %d%s" %
+                                    (q, max_sent, " (demandUpTo was lifted to %d at step %d)" % (P["demand"], first_demand[2]) if first_demand else ""), k))
                 elif q > max_deliv and not (chunked and taint):
                     bad.append(("emit:beyond-received-demand", "SequencedMessage seq %d sent, highest request received by the producer controller %d" % (q, max_deliv), k))
         for m in g["toPC"]:
@@ -326,6 +329,10 @@ def oracle_c43(c):
             bad.append(("buffer:exceeds-window", "receive buffer holds %d entries, window %d" % (len(C["buf"]), w), k))
         if bad:
             break
+        if first_demand is not None and k - first_demand[2] > 40:
+            break
+    if not bad and first_demand is not None:
+        bad.append(first_demand)
     return bad + ([known] if known else [])
 
 
